@@ -80,6 +80,9 @@ def check_case(ctx, case):
     var = case["var"]
     names = sorted(S.variables(s))
     occurs = var in names
+    if not C.varfree_in_scope(s):
+        ctx.count("inputs_out_of_scope")
+        return
     ctx.count("cases")
     pts = [S.point_from_json(pj) for pj in case["points"]]
     route_names = M.routes_for(names, var, pts[0] if pts else {})
